@@ -142,7 +142,37 @@ example :
   · intro a ha; simp [Pkt.fresh] at ha
   · intro _; rfl
 
-/- Clauses of C14 with no theorem here (open): `eq_decode` for MPEGAdaptionExtension, MPEGAdaption, MPEGTS, MPEGPacketPMT,
+/-- (added by the rev2 review) the extension decoded, into an object in any prior state and with anything following,
+    from `e`'s encoding compares equal to `e` as `pack` left it -/
+theorem Ext_eq_decode (e t : Ext) (rest : Bytes) (h : Ext_WF e) :
+    ∃ b, (Ext.pack e).2 = .ok b ∧ (Ext.unpack t (b ++ rest)).2 = .ok b.length ∧
+      Ext.eq (Ext.pack e).1 (Ext.unpack t (b ++ rest)).1 = true := by
+  obtain ⟨b, hp, hu, _⟩ := C06.Ext_roundtrip e t rest h
+  refine ⟨b, hp, by rw [hu], ?_⟩
+  rw [hu, Ext_pack_eq e h]
+  simp [Ext.eq]
+
+example : Ext_WF { Ext.fresh with ltw := [1, 2], seamless_splice := [1, 2, 3, 4, 5] } := by decide
+
+/-- (added by the rev2 review) the same for the adaptation field -/
+theorem AF_eq_decode (a t : AF) (rest : Bytes) (h : AF_WF a) :
+    ∃ b, (AF.pack a).2 = .ok b ∧ (AF.unpack t (b ++ rest)).2 = .ok () ∧
+      AF.eq (AF.pack a).1 (AF.unpack t (b ++ rest)).1 = true := by
+  obtain ⟨b, hp, hu, _⟩ := C06.AF_roundtrip a t rest h
+  refine ⟨b, hp, by rw [hu], ?_⟩
+  rw [hu, AF_pack_eq a h]
+  simp [AF.eq]
+
+example : AF_WF { AF.fresh with pcr := [1, 2, 3, 4, 5, 6], splice_countdown := 7, private_data := [0xAA], length := 40,
+                                adaption_extension := some { Ext.fresh with piecewise := [1, 2, 3] } } := by
+  refine ⟨by decide, by decide, by decide, by decide, ?_, by decide, by decide, by decide, by decide, by decide, by decide⟩
+  intro x hx
+  injection hx with hx
+  subst hx
+  decide
+
+
+/- Clauses of C14 with no theorem here (open): `eq_decode` for MPEGTS, MPEGPacketPMT,
    PES and STANAG4609 (the C06 round-trip theorems give the decoded object explicitly; the comparison with the packed
    object was not carried out).  `DescriptorTag` and `PMTStream` equality is structural in the model (`==` on the lists). -/
 
